@@ -333,6 +333,8 @@ func engineTotality(ctx *Ctx) {
 		}
 	})
 	c10BigFiles(ctx, r)
+	c10ByteRuns(ctx, r)
+	c10FewerRows(ctx, r)
 	t0 := time.Now()
 	c10DictQueries(ctx, r, budget)
 	c18AddExtra(ctx, "cpu_seconds_dictionary_queries", time.Since(t0).Seconds())
@@ -712,4 +714,82 @@ func c10BigFiles(ctx *Ctx, r *rand.Rand) {
 				Detail: fmt.Sprintf("a main list of 1 entry and a well-formed notebook of %d entries (%d bytes) load as %d entries (error: %v)", entries, st.Size(), n, err), Witness: cs})
 		}
 	})
+}
+
+// c10ByteRuns: queries that are a run of ONE byte value - every value from 0x00 to 0xFF (continuation bytes, lead bytes of 2-,
+// 3- and 4-byte sequences that never get their tail, NUL, DEL) - in lengths around the bounds the program knows (1000 bytes,
+// 1024, 4096, 65536), alone and glued to a word, through every search entry point.
+func c10ByteRuns(ctx *Ctx, r *rand.Rand) {
+	var db *database.Database
+	if !ctx.R.Guard("C10", "LoadDatabase", "byte-runs", func() {
+		db = vlib.MustLoad(vlib.GenCommands(r, vlib.DBSpec{N: 25, Pipelines: true, Unicode: true}))
+	}) {
+		return
+	}
+	cdb := database.NewCachedDatabase(db)
+	sr := recovery.NewSearchRecovery()
+	for b := 0; b < 256; b++ {
+		if b%ctx.NShards != ctx.Shard {
+			continue
+		}
+		for _, L := range []int{1, 3, 999, 1000, 1001, 1002, 1003, 1004, 1023, 1025, 4097, 65537} {
+			run := strings.Repeat(string([]byte{byte(b)}), L)
+			for vi, q := range []string{run, run + "list", "list " + run, run[:L/2] + " " + run[L/2:]} {
+				if L > 5000 && vi > 1 {
+					continue
+				}
+				o := database.SearchOptions{Limit: 5, UseNLP: (b+L+vi)%2 == 0, UseFuzzy: (b+vi)%2 == 0, AllPlatforms: true}
+				cs := map[string]interface{}{"class": "run-of-one-byte-value", "byte": fmt.Sprintf("0x%02X", b), "length": L, "variant": vi, "opts": fmt.Sprintf("%+v", o)}
+				ctx.R.Begin(cs)
+				ctx.R.Eval(1)
+				ctx.R.Guard("C10", "SearchUniversal", cs, func() { db.SearchUniversal(q, o) })
+				ctx.R.Guard("C10", "SearchWithOptionsAndCache", cs, func() { cdb.SearchWithOptionsAndCache(q, o) })
+				if L <= 1100 {
+					ctx.R.Guard("C10", "SearchWithPipelineOptions", cs, func() { db.SearchWithPipelineOptions(q, o) })
+					ctx.R.Guard("C10", "SearchWithNLP", cs, func() { db.SearchWithNLP(q, o) })
+					ctx.R.Guard("C10", "GetSuggestions", cs, func() { db.GetSuggestions(q, 3) })
+					ctx.R.Guard("C10", "RecoverFromSearchFailure", cs, func() { sr.RecoverFromSearchFailure(q, nil, db) })
+				}
+				ctx.R.Path("queries-that-are-a-run-of-one-byte-value", 1)
+			}
+		}
+	}
+}
+
+// c10FewerRows: a well-formed database that has more entries than the embedding file beside it has rows (entries were added
+// after the file was computed: one more, two more, half as many rows, none): every entry is searched for by a word of its own.
+func c10FewerRows(ctx *Ctx, r *rand.Rand) {
+	defer func() { embRowsKeep = -1 }()
+	for k := 0; k < ctx.Pick(2, 12); k++ {
+		cmds := vlib.GenCommands(r, vlib.DBSpec{N: 6 + r.Intn(20)})
+		for i := range cmds {
+			cmds[i].Description += fmt.Sprintf(" uniq%dword", i)
+		}
+		var db *database.Database
+		if !ctx.R.Guard("C10", "LoadDatabase", "fewer-rows", func() { db = vlib.MustLoad(cmds) }) {
+			continue
+		}
+		n := len(db.Commands)
+		embRowsKeep = []int{n - 1, n - 2, n / 2, 1, n - 1}[(k+ctx.Shard)%5]
+		cs0 := map[string]interface{}{"class": "database-longer-than-the-embedding-file", "entries": n, "rows": embRowsKeep}
+		ok := false
+		ctx.R.Guard("C10", "LoadEmbeddings", cs0, func() { ok = attachEmbeddings(ctx, r, db, "unit") })
+		embRowsKeep = -1
+		if !ok {
+			ctx.R.Path("embedding-files-shorter-than-the-database-not-attached", 1)
+		}
+		cdb := database.NewCachedDatabase(db)
+		for i := 0; i < n; i++ {
+			for _, nlpOn := range []bool{false, true} {
+				o := database.SearchOptions{Limit: 5, UseNLP: nlpOn, UseFuzzy: true, AllPlatforms: true}
+				q := fmt.Sprintf("uniq%dword", i)
+				cs := map[string]interface{}{"class": "database-longer-than-the-embedding-file", "entries": n, "rows": cs0["rows"], "query": q, "nlp": nlpOn}
+				ctx.R.Begin(cs)
+				ctx.R.Eval(1)
+				ctx.R.Guard("C10", "SearchUniversal", cs, func() { db.SearchUniversal(q, o) })
+				ctx.R.Guard("C10", "SearchWithOptionsAndCache", cs, func() { cdb.SearchWithOptionsAndCache(q, o) })
+				ctx.R.Path("searches-on-a-database-longer-than-its-embedding-file", 1)
+			}
+		}
+	}
 }
